@@ -453,6 +453,26 @@ Theorem BR_accepts_exactly_the_published_rule c : valid_BR c = true <-> c = [] \
 Proof. exact (valid_BR_iff_spec c). Qed.
 Print Assumptions BR_accepts_exactly_the_published_rule.
 
+(* ES: every code of the published rule is accepted, and the validator accepts exactly the published
+   shapes and check characters - except that the control character of a CIF / K-L-M number is
+   accepted in either form (digit or letter) whatever the first letter, where the published rule
+   fixes the form for K L M N P Q R S W (letter) and A B E H (digit) *)
+Theorem ES_accepts_every_code_of_the_published_rule c : c = [] \/ Spec_ES c -> valid_ES c = true.
+Proof. exact (spec_ES_accepted c). Qed.
+Print Assumptions ES_accepts_every_code_of_the_published_rule.
+
+Theorem ES_accepts_exactly_the_published_rule_with_either_control_form c :
+  valid_ES c = true <-> c = [] \/ Spec_ES_either_form c.
+Proof. exact (valid_ES_iff_either_form c). Qed.
+Print Assumptions ES_accepts_exactly_the_published_rule_with_either_control_form.
+
+Theorem ES_accepts_exactly_the_published_rule_refuted :
+  (exists c, valid_ES c = true /\ ~ (c = [] \/ Spec_ES c)) /\
+  valid_ES (bs "Q28260008") = true /\ ~ Spec_ES (bs "Q28260008") /\ Spec_ES (bs "Q2826000H") /\
+  valid_ES (bs "A5881850A") = true /\ ~ Spec_ES (bs "A5881850A") /\ Spec_ES (bs "A58818501").
+Proof. exact valid_ES_iff_spec_refuted. Qed.
+Print Assumptions ES_accepts_exactly_the_published_rule_refuted.
+
 (* GB (9 digits) *)
 Theorem GB_accepts_exactly_the_published_rule c :
   List.length c = 9%nat ->
